@@ -23,6 +23,17 @@ other assignment routes that funnel into it: ``update``, ``setdefault``,
 * rejected  -> the exception is ValueError and ``list(d)`` / ``dump()`` are what
   they were before (M.unchanged).
 
+PARSE SIDE (values also enter a paragraph by parsing): documents - lists of physical lines cut at LF only, handed
+over as lists of str/bytes lines, generators, ``io.StringIO``, ``io.BytesIO``, real text/binary files - in which a
+field line or a continuation line contains a lone CR (or a CR LF inside ONE list element) followed by text that would
+be rejected as an assigned value are fed to ``Deb822.iter_paragraphs`` / ``Deb822(...)`` (M.parse).  If the parser
+raises, nothing is demanded.  If it hands back a paragraph: (a) every value of it must be free of the three stated
+defects per the same model (M.parsed-value: what the validator must reject must not be obtainable by parsing either);
+(b) after ordinary accepted assignments to the paragraph its dump is re-read exactly as above and must give ONE
+paragraph with the same field names (M.reread-parsed, a sub-count of M.reread).  The same history - parse, assign,
+assign, dump, re-read - is driven on paragraphs parsed from ordinary documents, with hostile assigned values judged
+as on the assignment side (M.must-reject / M.unchanged).
+
 Auxiliary K-monitor: contract on the exceptional exit of
 ``Deb822.__setitem__`` (every binding): the mapping is unchanged.
 
@@ -70,7 +81,27 @@ RULE = ('Values: (1) ENUMERATED - every concatenation of <= 5 (quick) / <= 7 (th
         'by a CRC of the value out of 15 pairs (the six LF-only iter_paragraphs pairs weighing double); the remaining random CR values -> two LF-only forms + one '
         'constructor re-read; values without CR (there the LF-only cut equals the splitlines() cut) -> one pair for a '
         'rotating fraction; the dump of copy() -> one pair; a --replay runs all 18 (form, API) pairs.  '
-        'A value is NON-TRIVIAL when it contains a line boundary (LF or CR); distinct = distinct value string.')
+        'A value is NON-TRIVIAL when it contains a line boundary (LF or CR); distinct = distinct value string.  '
+        '(4) PARSE SIDE - documents given as physical lines cut at LF only and handed to Deb822.iter_paragraphs (3 in 4) / '
+        'Deb822(...) (1 in 4), strict default or whitespace-separates-paragraphs=False, in nine LF-only input forms: list of '
+        'str lines without / with LF terminators, list of bytes lines without / with terminators, a one-shot generator of '
+        'lines, io.StringIO, io.BytesIO, a real text file and a real binary file.  (4a) ENUMERATED hot lines: every '
+        "concatenation s of <= 4 (quick) / <= 6 (thorough) tokens from ['a', ':', ' ', TAB, CR, CR LF, '#', '-', 'B: x'] in five "
+        "contexts - 'Fld: '+s, 'Fld: old'+s, 'Fld:'+s, continuation ' c1'+s after 'Fld: old', first continuation ' '+s after "
+        "'Fld:' (the longest length is thinned out: quick - every string in the 1st and 4th context, every 3rd in the others; "
+        'thorough - every 3rd / every 9th) - inside five rotating paragraph '
+        'layouts (middle / sole / last / first field followed by a second paragraph / comments and multi-line neighbours), form, '
+        'API, strict setting and the following assignments (five short histories incl. a rejected assignment and a CR '
+        'value) chosen by a CRC of s; a CR LF token stays inside ONE list element in the list forms and cuts the line in '
+        'the stream forms.  (4b) SEEDED HISTORIES: ordinary documents of 1..3 paragraphs (1..4 fields, multi-line values, '
+        'odd colon spacing, comments, whitespace-only lines); half of them get ONE injection - a junk of CR / CR CR / CR LF / '
+        "blank CR ... plus a tail ('Key: value' look-alikes, comment, PGP armour, blank, indented text) appended to or cut "
+        'into a field or continuation line; 1 in 10 is an ordinary CR LF terminated file; un-injected ones are also parsed '
+        'from str / bytes; 1 in 10 with a fields= filter; then 1..5 assignments (item assignment, update, setdefault; 70% '
+        'hostile random values as in (2)) to present / new fields of every paragraph (first three), each judged as on the '
+        'assignment side, and after at least one accepted assignment the dump is re-read (str, bytes; for half of the cases one more '
+        '(form, API) pair of (3)).  A document is NON-TRIVIAL when a physical line contains CR or it has a continuation '
+        'line; distinct = distinct list of lines.')
 ASSUMPTIONS = [
     'vp.models.deb822value (30 lines) states the three defects of the property: value ends in LF; a line after the '
     'first is empty; a line after the first does not start with space/tab.  Lines are split on LF, CR LF, CR; a '
@@ -99,6 +130,23 @@ ASSUMPTIONS = [
     'indented and non-empty), so one paragraph with the same names is demanded there too; it is counted in M.reread '
     'but not in M.reread-lf.',
     'No must-accept demand: values without a stated defect that the library rejects are counted, never reported.',
+    'PARSE SIDE.  The statement guarantees that a value the paragraph holds can never inject fields, and that values '
+    'which would are rejected; a value obtained by parsing is held by the paragraph like an assigned one, so (a) it must '
+    'carry none of the three stated defects per the same model and (b) the paragraph must keep re-reading as one '
+    'paragraph with the same field names after further accepted assignments.  Guards: (i) if the parser raises ANY '
+    'exception (the present tree: ValueError from the validator) nothing is demanded, and paragraphs an iterator yielded '
+    'before raising are not judged; (ii) what a parse must GIVE is not stated - the field names and values the parser '
+    'produced are never compared with the input (a line it drops, a CR it eats as blank space after the colon, a CR it '
+    'treats as a line boundary are all fine); (iii) only str values are judged; (iv) the history and the re-read run only '
+    "on paragraphs whose every field name is ordinary (^[A-Za-z0-9][A-Za-z0-9-]*$): a CR trick can make the parser read a "
+    "name such as '#' or '-', and names are outside the property; (v) the re-read is demanded only after at least one "
+    'accepted assignment, compares the names list(d) holds at that moment, and consults the default parser setting only '
+    'when no continuation line of ANY value of the paragraph is blank (model lines); (vi) setdefault on a present '
+    'field assigns nothing and is executed as an item assignment; (vii) documents use only characters of the '
+    'quantified domain, and injected look-alike names are disjoint from the ordinary names of documents and assignment '
+    'targets; (viii) at most the first three paragraphs of a document are judged; (ix) for cost, an ENUMERATED document '
+    'whose paragraph holds no CR in any value goes through the history and re-read for every 4th document only (a '
+    '--replay always runs it, with all 18 (form, API) re-read pairs).',
     'Deb822(dict) with a defective value: any exception counts as a rejection on that route (the statement speaks of '
     'assignment to a field of an existing paragraph); the exception types seen are recorded in coverage.ctor_reject_types.',
 ]
@@ -115,10 +163,13 @@ MUST_REACH = ['debian.deb822:Deb822.validate_input', 'debian.deb822:Deb822.__set
 
 # ~50% of what a run on the current tree measures; the enumeration counters are deterministic and must be complete.
 # The form:* / api:* / lf:* counters and M.reread-lf belong to the LF-only re-read class: a run that never exercises it
-# (or never gets an accepted CR value into it) is INCONCLUSIVE, not held.
-FLOORS = {'quick': {'nontrivial': 47000,
-                    'monitors': {'M.reread': 430000, 'M.reread-lf': 80000, 'M.must-reject': 88000, 'M.unchanged': 89000,
-                                 'K.setitem-raise': 90000},
+# (or never gets an accepted CR value into it) is INCONCLUSIVE, not held.  The parse:* / penum-len:* counters and
+# M.parse / M.parsed-value / M.reread-parsed belong to the parse-side class, likewise.  No floor on parse:raised /
+# parse:hot-raised: whether the parser refuses a hot document is the library's choice.
+FLOORS = {'quick': {'nontrivial': 58000,
+                    'monitors': {'M.reread': 450000, 'M.reread-lf': 80000, 'M.must-reject': 100000, 'M.unchanged': 91000,
+                                 'K.setitem-raise': 93000,
+                                 'M.parse': 14000, 'M.parsed-value': 34000, 'M.reread-parsed': 25000},
                     'counters': {'enum-len:5': 100000, 'enum-len:4': 10000, 'accepted-multiline': 30000,
                                  'copy-checked': 1300, 'route:update': 1700, 'route:ctor': 1600,
                                  'route:setdefault': 600,
@@ -126,10 +177,24 @@ FLOORS = {'quick': {'nontrivial': 47000,
                                  'form:bytesio': 16000, 'form:textfile': 11500, 'form:binfile': 11500,
                                  'form:textfile-universal': 3700, 'api:Deb822()': 18000,
                                  'lf:cr-value': 17000, 'lf:cr-value-4-forms': 5400, 'lf:cr-after-colon-blanks': 3700,
-                                 'lf:cr-at-line-end': 10000, 'lf:cr-mid-line': 6500}},
+                                 'lf:cr-at-line-end': 10000, 'lf:cr-mid-line': 6500,
+                                 # parse-side class (enumeration counters are deterministic and must be complete)
+                                 'penum-len:4': 19683, 'penum-len:3': 3645, 'parse:history-case': 2500,
+                                 'parse:lone-cr': 6700, 'parse:hot': 5200, 'parse:hot:list': 3000,
+                                 'parse:hot:stream': 2200, 'parse:crlf-inside-list-element': 1900,
+                                 'parse:accepted': 12000, 'parse:accepted-cr-value': 500,
+                                 'parse:history-reread': 6000, 'parse:history-reread-multi-op': 4400,
+                                 'parse:op-accepted': 11500, 'parse:op-rejected': 1700,
+                                 'parse:api:iter': 10500, 'parse:api:ctor': 3500,
+                                 'parse:form:lines-bare': 2200, 'parse:form:lines-nl': 2200,
+                                 'parse:form:lines-bytes': 1200, 'parse:form:lines-bytes-nl': 1200,
+                                 'parse:form:lines-gen': 1200, 'parse:form:stringio': 1200,
+                                 'parse:form:bytesio': 2200, 'parse:form:textfile': 1200,
+                                 'parse:form:binfile': 1200, 'parse:form:str': 50, 'parse:form:bytes': 50}},
           'thorough': {'nontrivial': 2800000,     # recording cap is 400000 per shard x 14
-                       'monitors': {'M.reread': 13800000, 'M.reread-lf': 1750000, 'M.must-reject': 3000000,
-                                    'M.unchanged': 5200000, 'K.setitem-raise': 5200000},
+                       'monitors': {'M.reread': 14900000, 'M.reread-lf': 1750000, 'M.must-reject': 3500000,
+                                    'M.unchanged': 5300000, 'K.setitem-raise': 5500000,
+                                    'M.parse': 660000, 'M.parsed-value': 1470000, 'M.reread-parsed': 1140000},
                        'counters': {'enum-len:7': 10000000, 'enum-len:6': 1000000, 'enum-len:5': 100000,
                                     'accepted-multiline': 1300000, 'copy-checked': 49000, 'route:update': 64000,
                                     'route:ctor': 64000, 'route:setdefault': 22000,
@@ -138,7 +203,20 @@ FLOORS = {'quick': {'nontrivial': 47000,
                                     'form:textfile-universal': 83000, 'api:Deb822()': 560000,
                                     'lf:cr-value': 640000, 'lf:cr-value-4-forms': 64000,
                                     'lf:cr-after-colon-blanks': 125000, 'lf:cr-at-line-end': 350000,
-                                    'lf:cr-mid-line': 290000}}}
+                                    'lf:cr-mid-line': 290000,
+                                    # parse-side class
+                                    'penum-len:6': 531441, 'penum-len:5': 295245, 'penum-len:4': 32805,
+                                    'parse:history-case': 100000, 'parse:lone-cr': 420000, 'parse:hot': 338000,
+                                    'parse:hot:list': 196000, 'parse:hot:stream': 142000,
+                                    'parse:crlf-inside-list-element': 137000, 'parse:accepted': 535000,
+                                    'parse:accepted-cr-value': 36000, 'parse:history-reread': 267000,
+                                    'parse:history-reread-multi-op': 196000, 'parse:op-accepted': 507000,
+                                    'parse:op-rejected': 75000, 'parse:api:iter': 498000, 'parse:api:ctor': 166000,
+                                    'parse:form:lines-bare': 104000, 'parse:form:lines-nl': 104000,
+                                    'parse:form:lines-bytes': 57000, 'parse:form:lines-bytes-nl': 57000,
+                                    'parse:form:lines-gen': 57000, 'parse:form:stringio': 57000,
+                                    'parse:form:bytesio': 104000, 'parse:form:textfile': 57000,
+                                    'parse:form:binfile': 57000, 'parse:form:str': 2400, 'parse:form:bytes': 2400}}}
 
 WS_FALSE = {'whitespace-separates-paragraphs': False}
 
@@ -358,6 +436,325 @@ class Sources(object):
 
 
 # ---------------------------------------------------------------------------
+# PARSE-SIDE class: values also enter a paragraph by parsing.  A document is a list of PHYSICAL lines (cut at LF only);
+# a physical line may contain a lone CR (or, when handed over as ONE list element, a CR LF) followed by text that
+# would be rejected as an assigned value.  IF the parser hands back a paragraph, every value in it must be free of the
+# stated defects (M.parsed-value) and, after ordinary accepted assignments, the dump must re-read as ONE paragraph
+# with the same field names (M.reread-parsed).  If the parser raises, nothing is demanded.
+
+PTOKENS = ['a', ':', ' ', '\t', '\r', '\r\n', '#', '-', 'B: x']
+PENUM_MAXLEN = {'quick': 4, 'thorough': 6}
+PENUM_FULL = {'quick': 3, 'thorough': 5}      # above this length the strings are thinned out:
+PENUM_THIN = {'quick': (1, 3), 'thorough': (3, 9)}   # every N-th string in contexts 0 and 3 / in the other contexts
+# where the enumerated string s is put: (lines of the field before the hot line, prefix of the hot line)
+PCONTEXTS = [([], 'Fld: '),                    # field line, s is the whole value
+             ([], 'Fld: old'),                 # field line, s after text
+             ([], 'Fld:'),                     # right after the colon
+             (['Fld: old'], ' c1'),            # continuation line, s after text
+             (['Fld:'], ' ')]                  # first continuation of a value whose first line is empty
+# (lines before the field, lines after it)
+PLAYOUTS = [(['Pkg: p1'], ['Zed: z9']),                                   # middle field
+            ([], []),                                                     # sole field
+            (['Pkg: p1', 'Ver: 1.0-1'], []),                              # last field
+            ([], ['Zed: z9', '', 'Pkg: second', 'Ver: 2']),               # first field, a second paragraph follows
+            (['# comment', 'Pkg: p1', ' more', '#c2'], ['Zed:', ' z8', ' z9'])]   # comments, multi-line neighbours
+POPS = [[['Zz', 'v1', 'setitem']],
+        [['Pkg', 'p2', 'setitem']],
+        [['Zed', 'multi\n line\n .\n more', 'setitem'], ['Zz', '', 'update']],
+        [['Zz', 'bad\nB: x', 'setitem'], ['Pkg', 'p3', 'update']],
+        [['zed', 'a\r b', 'setitem'], ['Zz', 'v2', 'setdefault']]]
+LIST_FORMS = ['lines-bare', 'lines-nl', 'lines-bytes', 'lines-bytes-nl', 'lines-gen']
+STREAM_FORMS = ['stringio', 'bytesio', 'textfile', 'binfile']
+PARSE_FORMS = LIST_FORMS + STREAM_FORMS        # all hand the parser lines cut at LF only
+WHOLE_FORMS = ['str', 'bytes']                 # cut by the library with splitlines(): ordinary-input histories only
+PENUM_FORMS = ['lines-bare', 'stringio', 'lines-bytes', 'bytesio', 'lines-nl', 'textfile', 'lines-gen', 'binfile',
+               'lines-bytes-nl', 'lines-bare', 'bytesio', 'lines-nl']
+HIST_TOTAL = {'quick': 5000, 'thorough': 160000}
+CR_JUNK = ['\r', '\r', '\r', '\r\r', '\r\n', ' \r', '\r \r', '\r\t\r', '\t\r', '\r\r\n']
+CR_TAILS = INJECT + SPECIAL_LINES + ['', 'text', 'C: d', 'X: y',
+                                     # indented tails: the parser may keep the CR inside an accepted value
+                                     ' indented', '\tB: x', ' .', ' Inj: y', '  ', ' -----BEGIN PGP SIGNATURE-----',
+                                     '\t# c', ' K:v', ' more\r text', ' x\r']
+DOC_TEXT = ['p%d', 'some text %d', '%d.0-1', 'a (>= %d), b | c', 'http://x.example/%d', 'Name <n%d@example.org>']
+DOC_CONT = [' line %d', ' more', ' .', '\tTabbed: %d', '  deeper %d', ' Key: looks like a field', ' # not a comment']
+
+
+ORDINARY_NAME = re.compile(r'^[A-Za-z0-9][A-Za-z0-9-]*$')
+
+
+def lone_cr(line):
+    """The physical line (as the parser sees it, outer CR/LF stripped) still contains a CR."""
+    return '\r' in line.strip('\r\n')
+
+
+def hot_line(line):
+    """The text after a CR inside the physical line would be a defective continuation of an assigned value."""
+    core = line.strip('\r\n')
+    return '\r' in core and bool(model.defects(core))
+
+
+def rand_doc(r):
+    """An ordinary control document as a list of physical lines; (lines, field names used)."""
+    lines = []
+    if r.random() < 0.15:
+        lines.extend(r.choice([[''], ['', ''], ['#leading comment'], ['# c', '']]))
+    used = []
+    for pi in range(r.choice([1, 1, 1, 2, 2, 3])):
+        if pi:
+            lines.append('')
+        names = r.sample(NAME_POOL, r.choice([1, 2, 3, 3, 4]))
+        for i, name in enumerate(names):
+            used.append(name)
+            k = r.random()
+            first = '' if k < 0.2 else (r.choice(DOC_TEXT) % r.randint(0, 99) if k < 0.9 else ''.join(
+                r.choice(PRINTABLE) for _ in range(r.randint(1, 10))).strip() or 'x')
+            sep = r.choice([': ', ': ', ': ', ':', ':\t', ' : ', ':  '])
+            lines.append(name + (sep + first if first else r.choice([':', ': ', ':'])))
+            ncont = r.choice([0, 0, 1, 2, 3]) if first else r.choice([1, 2, 3])
+            for _ in range(ncont):
+                c = r.choice(DOC_CONT)
+                lines.append(c % r.randint(0, 99) if '%d' in c else c)
+                if r.random() < 0.06:
+                    lines.append(r.choice([' ', '  ', '\t', ' \t']))      # whitespace-only line inside a value
+            if r.random() < 0.08:
+                lines.append('#comment %d' % i)
+    return lines, used
+
+
+def rand_hist_case(r):
+    lines, used = rand_doc(r)
+    k = r.random()
+    if k < 0.5:
+        # one CR injection: a lone CR (or CR LF / CR CR ...) inside a field or continuation line, followed by a tail
+        cand = [i for i, l in enumerate(lines) if l and not l.startswith('#')]
+        i = r.choice(cand)
+        junk, tail = r.choice(CR_JUNK), r.choice(CR_TAILS)
+        l = lines[i]
+        if r.random() < 0.25 and len(l) > 2:
+            cut = r.randint(1, len(l) - 1)
+            lines[i] = l[:cut] + junk + tail + (l[cut:] if r.random() < 0.5 else '')
+        else:
+            lines[i] = l + junk + tail
+    elif k < 0.6:
+        lines = [l + '\r' for l in lines]            # an ordinary CR LF terminated file
+    form = r.choice(PARSE_FORMS + PARSE_FORMS + WHOLE_FORMS) if k >= 0.5 else r.choice(PARSE_FORMS)
+    case = {'kind': 'parse', 'lines': lines, 'form': form, 'api': 'ctor' if r.random() < 0.25 else 'iter',
+            'ws': r.random() < 0.5}
+    if r.random() < 0.1 and used:
+        case['fields'] = r.sample(used, r.randint(1, len(used)))
+    ops = []
+    if r.random() < 0.5:
+        ops.append(['X-First', 'v%d' % r.randint(0, 9), 'setitem'])
+    for j in range(r.choice([1, 2, 2, 3, 4])):
+        if used and r.random() < 0.6:
+            target = r.choice(used)
+            if r.random() < 0.2:
+                target = r.choice([target.lower(), target.upper()])
+        else:
+            target = r.choice(['X-New-%d' % j, r.choice(NAME_POOL)])
+        v = rand_value(r) if r.random() < 0.7 else r.choice(['v', '', '1.0', 'plain text', 'two\n lines'])
+        ops.append([target, v, r.choice(['setitem', 'setitem', 'update', 'setdefault'])])
+    case['ops'] = ops
+    return case
+
+
+def parse_source(ctx, lines, form):
+    """(source, closer): the document in one input form.  A fresh object per call."""
+    if form in LIST_FORMS:
+        if form == 'lines-bare':
+            return list(lines)
+        if form == 'lines-nl':
+            return [l + '\n' for l in lines]
+        if form == 'lines-bytes':
+            return [l.encode('utf-8') for l in lines]
+        if form == 'lines-bytes-nl':
+            return [(l + '\n').encode('utf-8') for l in lines]
+        return (l for l in list(lines))            # lines-gen: a one-shot iterator of str lines
+    text = '\n'.join(lines) + '\n' if lines else ''
+    if form == 'str':
+        return text
+    if form == 'bytes':
+        return text.encode('utf-8')
+    if form == 'stringio':
+        return io.StringIO(text)
+    if form == 'bytesio':
+        return io.BytesIO(text.encode('utf-8'))
+    if form in ('textfile', 'binfile'):
+        f = scratch_files(ctx)['t' if form == 'textfile' else 'b']
+        f.seek(0)
+        f.write(text if form == 'textfile' else text.encode('utf-8'))
+        f.truncate()
+        f.flush()
+        f.seek(0)
+        return f
+    raise ValueError('unknown parse form %r' % form)
+
+
+def assign_live(ctx, d, target, v, route, small):
+    """One assignment to a live (parsed) paragraph under the monitors of the assignment side.
+    True: accepted; False: rejected (and verified unchanged); None: a violation was recorded, stop this paragraph."""
+    from ..core import MonitorViolation
+    from .. import contracts
+    dfx = model.defects(v)
+    if route == 'setdefault' and target in d:
+        route = 'setitem'            # setdefault on a present field assigns nothing
+    ctx.count('parse:op:' + route)
+    before = (list(d), d.dump())
+    try:
+        K_ACTIVE[0] = True
+        if route == 'update':
+            d.update({target: v})
+        elif route == 'setdefault':
+            d.setdefault(target, v)
+        else:
+            d[target] = v
+    except MonitorViolation as e:
+        contracts.PENDING[:] = []
+        ctx.violation(e.key, e.msg, small)
+        return None
+    except Exception as e:
+        K_ACTIVE[0] = False
+        ctx.count('parse:op-rejected')
+        if not isinstance(e, ValueError):
+            ctx.violation('rejection-not-ValueError',
+                          'assigning %r to %r of a parsed paragraph raised %s (%s), not ValueError'
+                          % (v, target, type(e).__name__, e), small)
+        if not dfx:
+            ctx.extra['rejected_without_stated_defect'] += 1
+        ctx.mon('M.unchanged')
+        after = (list(d), d.dump())
+        if after != before:
+            ctx.violation('rejected-assignment-changed-paragraph',
+                          'assigning %r to %r of a parsed paragraph was rejected (%s) but list/dump changed: %r -> %r'
+                          % (v, target, type(e).__name__, before, after), small)
+            return None
+        return False
+    finally:
+        K_ACTIVE[0] = False
+    ctx.count('parse:op-accepted')
+    ctx.mon('M.must-reject')
+    if dfx:
+        ctx.violation('defective-value-accepted/' + dfx[0],
+                      'value %r has the stated defect(s) %s but assigning it to %r (%s) of a parsed paragraph was '
+                      'accepted; dump is %r' % (v, '+'.join(dfx), target, route, d.dump()), small)
+        return None
+    return True
+
+
+def run_parse(ctx, case, depth='none', sel=0, lazy=False):
+    """Parse one document; judge what the parser hands back (nothing if it raises)."""
+    from debian.deb822 import Deb822
+    from ..core import MonitorViolation
+    lines, form, api = case['lines'], case['form'], case.get('api', 'iter')
+    strict = None if case.get('ws', True) else WS_FALSE
+    fields = case.get('fields')
+    ops = case.get('ops') or []
+    ctx.mon('M.parse')
+    ctx.count('parse:form:' + form)
+    ctx.count('parse:api:' + api)
+    cr = any(lone_cr(l) for l in lines)
+    hot = cr and any(hot_line(l) for l in lines)
+    if cr:
+        ctx.count('parse:lone-cr')
+        if form in LIST_FORMS and any('\r\n' in l.strip('\r\n') for l in lines):
+            ctx.count('parse:crlf-inside-list-element')
+    if hot:
+        ctx.count('parse:hot')
+        ctx.count('parse:hot:' + ('list' if form in LIST_FORMS else 'stream' if form in STREAM_FORMS else 'whole'))
+    if cr or any(l[:1] in (' ', '\t') for l in lines):
+        ctx.nontrivial(case={'lines': lines}, key=hashlib.sha1(('parse\0' + '\n'.join(lines)).encode('utf-8')).hexdigest())
+    try:
+        src = parse_source(ctx, lines, form)
+        if api == 'iter':
+            paras = list(Deb822.iter_paragraphs(src, fields=fields, strict=strict))
+        else:
+            first = Deb822(src, fields=fields, strict=strict)
+            paras = [first] if first else []
+    except MonitorViolation:
+        raise
+    except Exception as e:          # the parser refuses the document: nothing is demanded
+        ctx.count('parse:raised')
+        ctx.count('parse:raised:' + type(e).__name__)
+        if hot:
+            ctx.count('parse:hot-raised')
+        return
+    ctx.count('parse:accepted')
+    if hot:
+        ctx.count('parse:hot-accepted')
+    if not paras:
+        ctx.count('parse:no-paragraph')
+    for pi, p in enumerate(paras[:3]):
+        # (a) no value obtained by parsing may carry a stated defect
+        values = []
+        for key in list(p):
+            val = p[key]
+            if not isinstance(val, str):
+                ctx.count('parse:non-str-value')
+                continue
+            values.append(val)
+            ctx.mon('M.parsed-value')
+            dfx = model.defects(val)
+            if dfx:
+                ctx.violation('parsed-value-has-stated-defect/' + dfx[0],
+                              'parsing %r (form %s, %s, strict=%r) was accepted and paragraph %d holds %s = %r, which has '
+                              'the stated defect(s) %s (the validator must reject this value); dump is %r'
+                              % (lines, form, api, strict, pi, key, val, '+'.join(dfx), p.dump()), case)
+        if any('\r' in x for x in values):
+            ctx.count('parse:accepted-cr-value')
+        if not all(ORDINARY_NAME.match(key) for key in p):
+            ctx.count('parse:odd-field-name')     # names are not under test: no history / re-read on this paragraph
+            continue
+        if lazy and (sel + pi) % 4 and not any('\r' in x for x in values):
+            continue                 # enumerated documents: a paragraph without CR in any value goes through the
+                                     # history + re-read for every 4th document only
+        # (b) history: parse, assign, assign, dump, re-read
+        accepted = 0
+        last = None
+        aborted = False
+        for target, v, route in ops:
+            ok = assign_live(ctx, p, target, v, route, case)
+            if ok is None:
+                aborted = True
+                break
+            if ok:
+                accepted += 1
+                last = v
+        if accepted and not aborted:
+            ctx.count('parse:history-reread')
+            if len(ops) > 1:
+                ctx.count('parse:history-reread-multi-op')
+            check_reread(ctx, p, last, case, what='dump of the parsed paragraph (%d of %r, form %s) after the assignments %r'
+                         % (pi, lines, form, ops), depth=depth, sel=sel + pi,
+                         values=[p[k] for k in p], suffix='/after-parse')
+
+
+def run_penum(ctx, case):
+    """One block of the enumerated parse-side documents: one context, one token prefix, all suffixes."""
+    k, ci = case['k'], case['c']
+    prefix = ''.join(PTOKENS[i] for i in case['prefix'])
+    before, pre = PCONTEXTS[ci]
+    slen = k - len(case['prefix'])
+    n = sum(case['prefix']) + k + ci
+    first = True
+    for suffix in itertools.product(PTOKENS, repeat=slen):
+        s = prefix + ''.join(suffix)
+        n += 1
+        if k > PENUM_FULL[ctx.tier] and n % PENUM_THIN[ctx.tier][0 if ci in (0, 3) else 1]:
+            continue
+        if not first:
+            ctx.evaluations += 1
+        first = False
+        ctx.count('penum-len:%d' % k)
+        h = zlib.crc32(s.encode('utf-8')) + ci
+        head, tail = PLAYOUTS[n % len(PLAYOUTS)]
+        doc = {'kind': 'parse', 'lines': head + before + [pre + s] + tail,
+               'form': PENUM_FORMS[h % len(PENUM_FORMS)], 'api': 'ctor' if (h >> 5) % 4 == 0 else 'iter',
+               'ws': bool((h >> 8) & 1), 'ops': POPS[(h >> 10) % len(POPS)]}
+        depth = 'one' if '\r' in s and (h >> 13) % 4 == 0 else 'none'
+        run_parse(ctx, doc, depth=depth, sel=h >> 3, lazy=True)
+
+
+# ---------------------------------------------------------------------------
 
 def setup(ctx):
     from debian import deb822
@@ -408,6 +805,17 @@ def cases(ctx):
     r = ctx.rng('random')
     for _ in range(ctx.size(RANDOM_TOTAL['quick'], RANDOM_TOTAL['thorough'])):
         yield rand_case(r)
+    # parse-side class: enumerated hot lines in five contexts, then seeded parse/assign histories
+    for k in range(0, PENUM_MAXLEN[ctx.tier] + 1):
+        plen = max(0, k - BLOCK_SUFFIX)
+        for ci in range(len(PCONTEXTS)):
+            for prefix in itertools.product(range(len(PTOKENS)), repeat=plen):
+                if ctx.mine(idx):
+                    yield {'kind': 'penum', 'k': k, 'c': ci, 'prefix': list(prefix)}
+                idx += 1
+    r = ctx.rng('parse-histories')
+    for _ in range(ctx.size(HIST_TOTAL['quick'], HIST_TOTAL['thorough'])):
+        yield rand_hist_case(r)
 
 
 # ---------------------------------------------------------------------------
@@ -453,16 +861,24 @@ def reread_once(src, is_iter, api, strict):
     return names
 
 
-def check_reread(ctx, d, v, small, what='dump', depth='none', sel=0):
-    """M.reread: the accepted value's paragraph re-reads as ONE paragraph with the same names."""
+def check_reread(ctx, d, v, small, what='dump', depth='none', sel=0, values=None, suffix=''):
+    """M.reread: the accepted value's paragraph re-reads as ONE paragraph with the same names.
+    values: all values of a PARSED paragraph (the blank-continuation guard of the default setting then looks at every
+    one of them, and the re-reads are also counted as M.reread-parsed)."""
     keys = list(d)
     text = d.dump()
-    blank = model.blank_continuation(v)
+    parsed = values is not None
+    if parsed:
+        blank = any(model.blank_continuation(x) for x in values)
+    else:
+        blank = model.blank_continuation(v)
     combos = [('str', 'iter'), ('bytes', 'iter')]
     extra = plan(depth, sel)
     if extra:
         combos.extend(extra)
-        if '\r' in v:
+        if parsed:
+            ctx.count('parse:reread-extra-forms')
+        elif '\r' in v:
             ctx.count('lf:cr-value')
             if depth in ('full', 'all'):
                 ctx.count('lf:cr-value-4-forms')
@@ -481,11 +897,16 @@ def check_reread(ctx, d, v, small, what='dump', depth='none', sel=0):
         for form, api in combos:
             mode = '%s/%s' % (form, sname) if api == 'iter' else '%s/Deb822()/%s' % (form, sname)
             ctx.mon('M.reread')
+            if parsed:
+                ctx.mon('M.reread-parsed')
             if form not in ('str', 'bytes'):
-                if form != UNIVERSAL:
-                    ctx.mon('M.reread-lf')
-                ctx.count('form:' + form)
-            if api == 'ctor':
+                if parsed:               # kept apart: the form:* / api:* floors speak about the assignment side
+                    ctx.count('parse:reread-form:' + form)
+                else:
+                    if form != UNIVERSAL:
+                        ctx.mon('M.reread-lf')
+                    ctx.count('form:' + form)
+            if api == 'ctor' and not parsed:
                 ctx.count('api:Deb822()')
             closer = None
             try:
@@ -505,7 +926,7 @@ def check_reread(ctx, d, v, small, what='dump', depth='none', sel=0):
                 detail += ' [file written by dump(fd) holds %r]' % (srcs.file_content(form),)
             found.setdefault(classify(keys, names, len(names)), (detail, []))[1].append(mode)
     for key, (detail, modes) in sorted(found.items()):
-        ctx.violation(key, '%s of accepted value %r is %r; re-read [%s] %s; expected one paragraph with fields %r'
+        ctx.violation(key + suffix, '%s of accepted value %r is %r; re-read [%s] %s; expected one paragraph with fields %r'
                       % (what, v, text, ', '.join(modes), detail, keys), small)
     ok = not found
     return ok
@@ -624,6 +1045,15 @@ def run_case(ctx, case):
         else:
             depth = 'one'
         assign_and_check(ctx, case['fields'], case['target'], v, case.get('route', 'setitem'), depth=depth)
+        return
+    if kind == 'parse':
+        lines = case['lines']
+        h = zlib.crc32('\n'.join(lines).encode('utf-8'))
+        ctx.count('parse:history-case')
+        run_parse(ctx, case, depth='all' if ctx.replay else ('one' if h % 2 else 'none'), sel=h >> 3)
+        return
+    if kind == 'penum':
+        run_penum(ctx, case)
         return
     if kind != 'enum':
         raise ValueError('unknown case kind %r' % kind)
